@@ -262,6 +262,143 @@ def code_pair_matrix(rep: Any) -> None:
         rep.candidate("ignore: " + key + f" (error [{ecode}], ignore [{ig}])", f"error code {ecode}, ignore code {ig}, declared parent {parent}", {"error": ecode, "ignore": ig}, replay)
 
 
+def code_state_matrix(rep: Any) -> None:
+    """K1d: enabling / disabling error codes over the whole real code table, through the real
+    Options.process_error_codes (global flags), Options.apply_changes (per-module section) and the
+    kernel-extracted Errors.is_error_code_enabled.  For every code -- and for every (sub-code, parent)
+    pair -- the solver chooses, globally and in the module's section, one of none / enable / disable /
+    both for the code and for its parent.  Oracle (documented rules): enabling overrides disabling at
+    the same level; the module's section overrides the global flags code by code; an explicit state of
+    the code wins; otherwise a disabled parent switches its sub-codes off; otherwise the default."""
+    from mypy import errorcodes as codes
+    from mypy.options import Options
+
+    KE, _ = load()
+    ErrCls = make_errors_class(KE)
+    objs = sorted({c.code: c for c in vars(codes).values() if isinstance(c, codes.ErrorCode)}.values(), key=lambda c: c.code)
+    objs = [codes.error_codes[c.code] for c in objs if c.code in codes.error_codes]
+    FL = ["none", "enable", "disable", "both"]
+    ctx = Ctx(max_paths=2_000_000)
+    found: dict = {}
+    n = {"runs": 0, "on": 0, "off": 0, "sub_on_parent_off": 0}
+
+    def effective(g: str, m: str) -> str:
+        for lvl in (m, g):
+            if lvl in ("enable", "both"):
+                return "E"
+            if lvl == "disable":
+                return "D"
+        return "default"
+
+    def body(c: Ctx) -> None:
+        e = objs[c.choose("code", len(objs))]
+        p = e.sub_code_of
+        g_own, m_own = FL[c.choose("global_own", 4)], FL[c.choose("module_own", 4)]
+        g_par = m_par = "none"
+        if p is not None:
+            g_par, m_par = FL[c.choose("global_parent", 4)], FL[c.choose("module_parent", 4)]
+
+        def lists(own: str, par: str) -> tuple[list, list]:
+            en, dis = [], []
+            for code, st in ((e, own), (p, par)):
+                if code is None:
+                    continue
+                if st in ("enable", "both"):
+                    en.append(code.code)
+                if st in ("disable", "both"):
+                    dis.append(code.code)
+            return en, dis
+
+        o = Options()
+        o.enable_error_code, o.disable_error_code = lists(g_own, g_par)
+        o.process_error_codes(error_callback=lambda msg: None)
+        men, mdis = lists(m_own, m_par)
+        mo = o.apply_changes({"enable_error_code": men, "disable_error_code": mdis}) if (men or mdis or bool(c.bool("clone_anyway"))) else o
+        errors = ErrCls(mo)
+        errors.set_file("m.py", "m", mo)
+        got = bool(errors.is_error_code_enabled(e))
+        so = effective(g_own, m_own)
+        sp = effective(g_par, m_par)
+        want = True if so == "E" else False if so == "D" else (False if sp == "D" else e.default_enabled)
+        n["runs"] += 1
+        n["on" if got else "off"] += 1
+        if got and sp == "D":
+            n["sub_on_parent_off"] += 1
+        c.stats["assert_queries"] += 1
+        if got == want:
+            c.stats["discharged"] += 1
+        else:
+            c.stats["refuted"] += 1
+            key = f"code {'enabled' if got else 'disabled'} although the rules say {'enabled' if want else 'disabled'}: own state {so}, parent state {sp if p is not None else 'no parent'}"
+            found.setdefault(key, (e.code, g_own, m_own, g_par, m_par))
+
+    ctx.explore(body)
+    rep.add_ctx("K1d enable/disable flags (global + per-module) vs is_error_code_enabled over the whole code table", ctx, codes=len(objs), outcomes=dict(n))
+    rep.twin("K1d: on, off and sub-code-on-under-disabled-parent reached", n["on"] > 0 and n["off"] > 0 and n["sub_on_parent_off"] > 0)
+    rep.bounds.append(f"K1d: each of the {len(objs)} real error codes; global and per-module none/enable/disable/both for the code and (if it has one) its parent; one module section")
+    for key, (ecode, g_own, m_own, g_par, m_par) in found.items():
+        rep.sample({"kernel": "is_error_code_enabled", "class": key, "code": ecode, "global": [g_own, g_par], "module": [m_own, m_par]})
+
+        def replay(d: str, ecode: str = ecode, g_own: str = g_own, m_own: str = m_own, g_par: str = g_par, m_par: str = m_par) -> tuple[bool, str]:
+            """real command line + config file; observed through a program that provokes the code when
+            one is known, otherwise through the unmodified API"""
+            import mypy.errors as E
+
+            e = codes.error_codes[ecode]
+            p = e.sub_code_of
+
+            def lists(own: str, par: str) -> tuple[list, list]:
+                en, dis = [], []
+                for code, st in ((e, own), (p, par)):
+                    if code is None:
+                        continue
+                    if st in ("enable", "both"):
+                        en.append(code.code)
+                    if st in ("disable", "both"):
+                        dis.append(code.code)
+                return en, dis
+
+            o = Options()
+            o.enable_error_code, o.disable_error_code = lists(g_own, g_par)
+            o.process_error_codes(error_callback=lambda msg: None)
+            men, mdis = lists(m_own, m_par)
+            mo = o.apply_changes({"enable_error_code": men, "disable_error_code": mdis}) if (men or mdis) else o
+            errors = E.Errors(mo)
+            errors.set_file("m.py", "m", mo)
+            got = bool(errors.is_error_code_enabled(e))
+            so, sp = effective(g_own, m_own), effective(g_par, m_par)
+            want = True if so == "E" else False if so == "D" else (False if sp == "D" else e.default_enabled)
+            text = f"unmodified API: [{ecode}] enabled={got}, rules say {want} (own {so}, parent {sp})"
+            bad = got != want
+            progs = {"method-assign": "class A:\n    def f(self) -> int: return 1\ndef g(self: A) -> int: return 2\nA.f = g\nA().f = lambda: 3\n"}
+            if bad and ecode in progs:
+                with open(os.path.join(d, "m.py"), "w") as f:
+                    f.write(progs[ecode])
+                cfg = "[mypy]\n"
+                gen, gdis = lists(g_own, g_par)
+                if gen:
+                    cfg += "enable_error_code = " + ", ".join(gen) + "\n"
+                if gdis:
+                    cfg += "disable_error_code = " + ", ".join(gdis) + "\n"
+                if men or mdis:
+                    cfg += "[mypy-m]\n"
+                    if men:
+                        cfg += "enable_error_code = " + ", ".join(men) + "\n"
+                    if mdis:
+                        cfg += "disable_error_code = " + ", ".join(mdis) + "\n"
+                with open(os.path.join(d, "mypy.ini"), "w") as f:
+                    f.write(cfg)
+                env = dict(os.environ)
+                env.pop("PYTHONPATH", None)
+                pr = subprocess.run([sys.executable, "-m", "mypy", "--config-file", "mypy.ini", "--no-incremental", "--no-error-summary", "m.py"], cwd=d, capture_output=True, text=True, env=env, timeout=300)
+                shown = f"[{ecode}]" in pr.stdout
+                text += f"\nreal run with\n{cfg}exit {pr.returncode}: {pr.stdout.strip()[:300]}"
+                bad = shown != want
+            return bad, text
+
+        rep.candidate("codes: " + key, f"code {ecode}: global own/parent {g_own}/{g_par}, module own/parent {m_own}/{m_par}", {"code": ecode, "global": [g_own, g_par], "module": [m_own, m_par]}, replay)
+
+
 def module_ignore_scope(rep: Any) -> None:
     """K1c: when does a '# type: ignore' comment silence the whole module?  fastparse.parse with the
     source-extracted ASTConverter.get_lineno / translate_stmt_list on generated module heads; the
@@ -369,6 +506,7 @@ def run(rep: Any, tier: str) -> None:
         for k, v in fnd.items():
             found.setdefault(k, v)
     code_pair_matrix(rep)
+    code_state_matrix(rep)
     module_ignore_scope(rep)
     rep.add_ctx("K1 ignore / error-code exactness", tot, outcomes=counts)
     rep.twin("K1: shown, suppressed and unused-ignore outcomes all reached", counts["shown"] > 0 and counts["suppressed"] > 0 and counts["unused"] > 0)
